@@ -245,12 +245,23 @@ Definition string_token (fl : flags) (cs : str) : lres :=
 Definition is_builtin_type (n : str) : bool :=
   existsb (NM.str_eqb n) [s_Any; s_Null; s_boolean; s_number; s_string; s_date; s_date_and_time; s_time; s_ym_duration; s_dt_duration].
 
+(* Name::new trims every part (str::trim, the characters with the Unicode property White_Space).  A part is a run of name part
+   characters or one additional symbol; the only such character with that property is U+1680 (OGHAM SPACE MARK, inside the name
+   start range 037F-1FFF), so trimming a part is dropping U+1680 at both ends.  (C10.Model.name_new leaves the trim out.) *)
+Fixpoint trim_left (p : str) : str :=
+  match p with
+  | c :: r => if (c =? 5760)%N then trim_left r else p
+  | [] => []
+  end.
+Definition trim_part (p : str) : str := rev (trim_left (rev (trim_left p))).
+Definition name_of (parts : list str) : str := NM.name_new (map trim_part parts).
+
 (* `while part_count > 0`: a scope key first, then (type-name mode) a built-in type name; the flag says which *)
 Fixpoint search_t (keys : list str) (ty : bool) (parts : list str) (pc : nat) : option (nat * bool) :=
   match pc with
   | O => None
   | S k =>
-    let name := NM.flatten_parts (firstn pc parts) in
+    let name := name_of (firstn pc parts) in
     if NM.mem name keys then Some (pc, false)
     else if ty && is_builtin_type name then Some (pc, true)
     else search_t keys ty parts k
@@ -264,13 +275,13 @@ Definition name_token (keys : list str) (fl : flags) (cs : str) : lres :=
   then RTok (LName NM.str_item) fl (from (S (nth 0 cps 0)))
   else
     match (if f_tillin fl then NM.index_of NM.str_in parts 0 else None) with
-    | Some (S i) => RTok (LName (NM.name_new (firstn (S i) parts))) (set_tillin false fl) (from (S (nth i cps 0)))
+    | Some (S i) => RTok (LName (name_of (firstn (S i) parts))) (set_tillin false fl) (from (S (nth i cps 0)))
     | _ =>
       match search_t keys (f_type fl) parts (length parts) with
-      | Some (pc, false) => RTok (LName (NM.name_new (firstn pc parts))) fl (from (S (nth (pc - 1) cps 0)))
-      | Some (pc, true) => RTok (LType (NM.name_new (firstn pc parts))) (set_type false fl) (from (S (nth (pc - 1) cps 0)))
+      | Some (pc, false) => RTok (LName (name_of (firstn pc parts))) fl (from (S (nth (pc - 1) cps 0)))
+      | Some (pc, true) => RTok (LType (name_of (firstn pc parts))) (set_type false fl) (from (S (nth (pc - 1) cps 0)))
       | None =>
-        let name := NM.name_new parts in
+        let name := name_of parts in
         let rest := from endpos in
         if f_type fl && is_builtin_type name then RTok (LType name) (set_type false fl) rest
         else if NM.str_eqb name s_date_and_time || NM.str_eqb name s_duration then RTok (LNameDT name) fl rest
@@ -385,7 +396,9 @@ Definition sym_text (s : sym) : str :=
   | SLt => [60] | SGt => [62] | SLp => [40] | SRp => [41] | SLb => [91] | SRb => [93] | SLbrace => [123] | SRbrace => [125] | SAt => [64]
   end%N.
 
-(* strings are written with the default spelling of every character (raw where the code accepts it raw, else \u / \U) *)
+(* strings are written with the default spelling of every character (raw where the code accepts it raw, else \u / \U), white space
+   characters escaped (so that the printed text never contains U+1680 and the like) *)
+Definition str_spellings (s : str) : list spelling := map (fun c => if is_ws c then U4 false else Raw) s.
 Definition tok_text (t : ltoken) : str :=
   match t with
   | LKw k => kw_text k
@@ -395,7 +408,7 @@ Definition tok_text (t : ltoken) : str :=
   | LNull => s_null
   | LNum b [] => b
   | LNum b a => b ++ 46%N :: a
-  | LStr s => 34%N :: escape [] s ++ [34%N]
+  | LStr s => 34%N :: escape (str_spellings s) s ++ [34%N]
   | LName n | LNameDT n | LType n => n
   end.
 
